@@ -1,6 +1,8 @@
 import PPProofs.Props.C04
 import PPProofs.Lemmas.LRIter
 import PPProofs.Lemmas.LRGrow
+import PPProofs.Lemmas.LRIterG
+import PPProofs.Lemmas.ParseMono
 import PPProofs.Lemmas.ParseAdv
 /-!
 # C04 — a DIRECT left-recursive rule `E <<= (E + tail) | base` parses as the iterative grammar `base (tail)*`
@@ -375,5 +377,81 @@ example : parseLR exG exS 6 [] 0 0 false true
     (fun e e' ts' _ h => tailOf_strict exG exS 3 3 [4] rfl
       (parse_lit1_strict exG exS 2 3 _ '+' rfl rfl) false e e' ts' h)
     (by intro h; cases h) (by intro h; cases h)
+
+/-! ## Second half: the iterative grammar as a node table, `I = And [b, Z]`, `Z = ZeroOrMore R`, `R = And (t0 :: rest)`
+    (same table, same `b` / `t…`; `IterG`, PPProofs/Lemmas/LRIterG.lean) -/
+
+/-- **C04 on the model parser, both halves**: `parseLR` on the direct left-recursive rule `E` equals the model's `parse`
+    of the iterative grammar `I = b (t0 rest…)*` at the same (pre-parsed) location, same fuel — tokens AND end location AND
+    failures — for every table, input, fuel, location, with or without actions, under the listed hypotheses.
+
+    NAMED `_partial` because of the hypotheses `hpZ`, `hpR`, `ht0`, `hb0` (the pre-parse of `Z` and `R` does not move and
+    the first elements `b`, `t0` ignore their `callPreParse` flag: no whitespace / ignorables in front of the operator at
+    the positions visited).  They cannot simply be dropped: with whitespace after the last operand the two sides differ in
+    the END LOCATION (`ZeroOrMore` returns the pre-parsed location when it matches nothing: `exG2_end_differs` below,
+    replayed on the real code: `E._parse("1 ",0)` ends at 1, `(one + ZeroOrMore(plus + one))._parse("1 ",0)` at 2) — the
+    tokens agree.  A whitespace-tolerant version (tokens and success only, or ends up to skipped whitespace) is not proved.
+    Other hypotheses: as in `parseLR_direct_eq_iterative_partial`; matches end inside the input (`hbb`, `hbd`: budgets
+    `len+2` suffice); the base's failure is a ParseException at or after `pre` (else `MatchFirst` reports the seed's
+    location), not a raw IndexError, and does not run out of fuel one level earlier (`hnh`). -/
+theorem parseLR_direct_eq_parse_iterative_partial {g : Grammar} {E m sq b t0 I Z R : Nat} {rest : List Nat}
+    {nE nm nsq nI nZ nR : Node}
+    (h : DirectLR g E m sq b (t0 :: rest) nE nm nsq) (hi : IterG g I Z R b t0 rest nI nZ nR)
+    (s : List Char) {D : Nat → Prop} (hD : FwdFree g D) (hb : D b)
+    (hts : ∀ t ∈ t0 :: rest, D t) (f : Nat) (env : Env) (loc pre : Nat) (acts callPre : Bool)
+    (hpreE : (if callPre && nE.callPre then preParse (parseLR g s (f + 3) env) nE s loc else PreR.at loc) = .at pre)
+    (hpre : ∀ p, (if nsq.callPre then preParse p nsq s pre else PreR.at pre) = .at pre)
+    (henv : env.get ⟨E, pre, acts⟩ = none)
+    (hadv : ∀ a e e' ts', tailOf g s (f + 1) (t0 :: rest) a e = .ok e' ts' → e < e')
+    (hbase : acts = true → AgreeOut (baseOf g s (f + 2) b pre false) (baseOf g s (f + 2) b pre true))
+    (htail : acts = true → ∀ e, pre ≤ e →
+      AgreeOut (tailOf g s (f + 1) (t0 :: rest) false e) (tailOf g s (f + 1) (t0 :: rest) true e))
+    (hpZ : ∀ p e, (if nZ.callPre then preParse p nZ s e else PreR.at e) = .at e)
+    (hpR : ∀ p e, (if nR.callPre then preParse p nR s e else PreR.at e) = .at e)
+    (ht0 : ∀ e a, parse g s (f + 1) t0 e a false = parse g s (f + 1) t0 e a true)
+    (hb0 : parse g s (f + 3) b pre acts false = parse g s (f + 3) b pre acts true)
+    (hnh : baseOf g s (f + 2) b pre acts ≠ .hang)
+    (hbidx : baseOf g s (f + 2) b pre acts ≠ .idx)
+    (hbl : ∀ l, baseOf g s (f + 2) b pre acts = .fail .parse l → pre ≤ l)
+    (hbb : ∀ e0 ts0, baseOf g s (f + 2) b pre acts = .ok e0 ts0 → e0 ≤ s.length)
+    (hbd : ∀ e e' ts', tailOf g s (f + 1) (t0 :: rest) acts e = .ok e' ts' → e' ≤ s.length) :
+    parseLR g s (f + 4) env E loc acts callPre = enhFix pre (parse g s (f + 4) I pre acts false) := by
+  rw [parseLR_direct_eq_iterative_partial h s hD hb hts f env loc pre acts callPre hpreE hpre henv
+    (fun e e' ts' _ h1 => hadv false e e' ts' h1) hbase htail]
+  rw [parse_I_step hi s (f + 1) hpZ hpR ht0 pre acts hb0 (hadv acts)]
+  have hfuel : baseOf g s (f + 1 + 2) b pre acts = baseOf g s (f + 2) b pre acts :=
+    parse_step_mono g s (f + 2) b pre acts true _ rfl hnh
+  rw [hfuel]
+  congr 1
+  unfold iterRef
+  cases hbv : baseOf g s (f + 2) b pre acts with
+  | ok e0 ts0 =>
+    have h1 := hbb e0 ts0 hbv
+    exact iterLoop_budget _ acts s.length hbd (s.length + 1) (s.length + 3) e0 ts0 h1 (by omega) (by omega)
+  | fail c l =>
+    cases c with
+    | parse =>
+      have := hbl l hbv
+      simp only [mfSecond, idxConv]
+      by_cases hl : l > pre
+      · simp [hl]
+      · have : l = pre := by omega
+        simp [this]
+    | fatal => rfl
+    | «syntax» => rfl
+  | idx => exact absurd hbv hbidx
+  | hang => rfl
+
+/-- the example table extended by the iterative grammar: `5 = And [4, 6]`, `6 = ZeroOrMore 7`, `7 = And [3, 4]` -/
+def exG2 : Grammar := exG ++ [exNode (.and [4, 6]), exNode (.many 7 none false), exNode (.and [3, 4])]
+
+/-- on "1+1+1" (no whitespace) both sides give the same outcome -/
+example : parseLR exG2 ['1', '+', '1', '+', '1'] 6 [] 0 0 false true = parse exG2 ['1', '+', '1', '+', '1'] 6 5 0 false false := by
+  rfl
+
+/-- why the whitespace hypotheses cannot be dropped for an equality of outcomes: same tokens, different end -/
+theorem exG2_end_differs :
+    parseLR exG2 ['1', ' '] 8 [] 0 0 false true = .ok 1 [.s ['1']] ∧
+    parse exG2 ['1', ' '] 8 5 0 false true = .ok 2 [.s ['1']] := ⟨rfl, rfl⟩
 
 end PP.Parse
